@@ -24,6 +24,15 @@
 (*                  between, so a victim may be final (and announced) by   *)
 (*                  the time FAILED is applied                             *)
 (*   DirectUpdate(t, s) Task._update(<final state>) on a final task        *)
+(*   ApiCall(s)     wait_tasks(state=s) / list_tasks / get_tasks between   *)
+(*                  notifications: reads only; in particular the module    *)
+(*                  level state tables stay what they are                  *)
+(*   SetInfo(t, k)  a service task reports its startup info (service_up    *)
+(*                  handler / Task._set_info), a string or a dict          *)
+(*   Register       submit_tasks registers the Task objects it created     *)
+(*                  (unreg): the tasks lock is held from creation to       *)
+(*                  registration, so the pilot callback's scan comes       *)
+(*                  before or after, not in between                        *)
 (*   NBegin(b), NSelect, NApply, NToFire, NFire                            *)
 (*                  _update_tasks step by step, the other way round of the *)
 (*                  same race: for one entry the passed states are         *)
@@ -52,6 +61,12 @@
 (*                          (as_dict of one task) shields the later tasks  *)
 (*   DevAnnounceUnapplied   D25 _update_tasks announces every passed state *)
 (*                          it computed, applied by Task._update or not    *)
+(*   DevWaitExtendsFinal    (seeded regression) wait_tasks(state=s) adds s *)
+(*                          to the module's list of final states           *)
+(*   DevInfoMerge           (seeded regression) finalising a service task  *)
+(*                          whose info is a dict raises in Task._update    *)
+(*   DevSubmitOtherLock     (seeded regression) submit_tasks does not hold *)
+(*                          the tasks lock: the scan may come in between   *)
 (*   DevAddLastWatched      (seeded regression) of a list handed to        *)
 (*                          add_pilots only one pilot is watched           *)
 (* DevPBatchFirst / DevPFinalRaise leave the invariants of C14 intact (they *)
@@ -73,7 +88,11 @@ CONSTANTS Tasks, UnknownTasks,      \* known / unknown task ids
           Race,                     \* TRUE: two-step pilot death and DirectUpdate
           LateAdd,                  \* TRUE: pilots join the task manager by AddPilots
           DevApplyNoRecheck, DevApplyOverCanceled, DevLoopAborts, DevAddLastWatched,
-          DevAnnounceUnapplied
+          DevAnnounceUnapplied,
+          Services,                 \* tasks of mode TASK_SERVICE
+          Api,                      \* TRUE: ApiCall / SetInfo are part of the action set
+          LateSubmit,               \* TRUE: tasks may be in the middle of their submission
+          DevWaitExtendsFinal, DevInfoMerge, DevSubmitOtherLock
 
 VARIABLES tstate, cbLog, bound, detail, pstate, pcbLog, dead, removed,
           iso, ownOK, keepOK, unkOK, pcomplete,
@@ -81,13 +100,16 @@ VARIABLES tstate, cbLog, bound, detail, pstate, pcbLog, dead, removed,
           added, watched,           \* pilots handed to add_pilots / with _pilot_state_cb registered
           nphase, nb, plan, tonote, \* _update_tasks in progress: phase, entries left, <<uid, states
                                     \* left to apply>>, <<uid, state>> to announce
-          atOK                      \* ghost: a callback never announced a state Task.state contradicts
+          atOK,                     \* ghost: a callback never announced a state Task.state contradicts
+          tables,                   \* states the module tables list as final beyond the real ones
+          info,                     \* startup info of the tasks: "none" | "str" | "dict"
+          unreg                     \* Task objects created by submit_tasks, not yet registered
 
 vars == <<tstate, cbLog, bound, detail, pstate, pcbLog, dead, removed,
           iso, ownOK, keepOK, unkOK, pcomplete, dying, todo, own, added, watched,
-          nphase, nb, plan, tonote, atOK>>
+          nphase, nb, plan, tonote, atOK, tables, info, unreg>>
 
-step == <<nphase, nb, plan, tonote, atOK>>
+step == <<nphase, nb, plan, tonote, atOK, tables, info, unreg>>
 
 race == <<dying, todo, own>>
 adds == <<added, watched>>
@@ -108,6 +130,8 @@ TypeOK ==
   /\ dying \in Pilots \cup {None} /\ todo \subseteq Tasks /\ own \subseteq Tasks
   /\ watched \subseteq added /\ added \subseteq Pilots
   /\ nphase \in {"idle", "apply", "fire"} /\ atOK \in BOOLEAN
+  /\ tables \subseteq AllStates(NT) /\ unreg \subseteq Tasks
+  /\ info \in [Tasks -> {"none", "str", "dict"}]
   /\ \A t \in Tasks  : \A i \in 1 .. Len(cbLog[t])  : cbLog[t][i]  \in AllStates(NT)
   /\ \A p \in Pilots : \A i \in 1 .. Len(pcbLog[p]) : pcbLog[p][i] \in AllStates(NP)
 
@@ -122,22 +146,28 @@ Init ==
   /\ dying = None /\ todo = {} /\ own = {}
   /\ added = (IF LateAdd THEN {} ELSE Pilots) /\ watched = added
   /\ nphase = "idle" /\ nb = <<>> /\ plan = <<>> /\ tonote = <<>> /\ atOK = TRUE
+  /\ tables = {} /\ info = [t \in Tasks |-> "none"]
+  \* tasks in the middle of their submission: early bound, not yet registered
+  /\ unreg \in (IF LateSubmit THEN SUBSET {t \in Tasks : bound[t] # None} ELSE {{}})
   /\ iso = TRUE /\ ownOK = TRUE /\ keepOK = TRUE /\ unkOK = TRUE /\ pcomplete = TRUE
 
 (* ------------------------------------------------------------------------ *)
+\* service tasks whose finalisation raises in Task._update
+Boom == IF DevInfoMerge THEN {t \in Services : info[t] = "dict"} ELSE {}
+
 Notify(b) ==
-  LET r == TRes(DevFinalRaise, b, tstate) IN
-  /\ nphase = "idle"
+  LET r == TResB(DevFinalRaise, Boom, b, tstate) IN
+  /\ nphase = "idle" /\ unreg = {}
   /\ tstate' = r.st
   /\ cbLog'  = [t \in Tasks |-> cbLog[t] \o r.cb[t]]
-  /\ iso'    = Isolated(DevFinalRaise, b, tstate)
+  /\ iso'    = IsolatedB(DevFinalRaise, Boom, b, tstate)
   /\ UNCHANGED <<bound, detail, pstate, pcbLog, dead, removed, ownOK, keepOK, unkOK, pcomplete,
                  race, adds, step>>
 
 \* the tmgr scheduler binds t to p: full task dict with 'pilot' and the next
 \* state; Task._update copies the pilot because the state moves
 Bind(t, p) ==
-  /\ bound[t] = None /\ tstate[t] < BindAt /\ nphase = "idle"
+  /\ bound[t] = None /\ tstate[t] < BindAt /\ nphase = "idle" /\ unreg = {}
   /\ p \notin dead /\ p \notin removed /\ ~IsFinal(NP, pstate[p])
   /\ p \in added /\ p # dying
   /\ LET b == <<<<t, BindAt>>>>
@@ -153,8 +183,16 @@ Bind(t, p) ==
 \* C13 says about it (reference = KillSeq without deviations)
 \* fired: the pilots among calls for which the task manager's callback runs
 Deaths(calls, fired) ==
-  LET k   == KillSeq(DevPilotCbAll, DevPilotCbCanceled, tstate, detail, bound, fired)
-      ref == KillSeq(FALSE, FALSE, tstate, detail, bound, calls) IN
+  LET k0  == KillSeq(DevPilotCbAll, DevPilotCbCanceled, tstate, detail, bound, fired)
+      r0  == KillSeq(FALSE, FALSE, tstate, detail, bound, calls)
+      \* Task objects not yet registered are not in the table the callback scans;
+      \* they are judged when their registration is over (Register)
+      k   == [st  |-> [t \in Tasks |-> IF t \in unreg THEN tstate[t] ELSE k0.st[t]],
+              det |-> [t \in Tasks |-> IF t \in unreg THEN detail[t] ELSE k0.det[t]]]
+      ref == [st  |-> [t \in Tasks |-> IF t \in unreg THEN tstate[t] ELSE r0.st[t]],
+              det |-> [t \in Tasks |-> IF t \in unreg THEN detail[t] ELSE r0.det[t]]] IN
+  \* the scan takes the tasks lock, which a submission holds until it registered
+  /\ unreg = {} \/ DevSubmitOtherLock
   /\ tstate' = k.st
   /\ detail' = k.det
   /\ dead'   = dead \cup SeqToSet(calls)
@@ -184,14 +222,14 @@ PNotify(b) ==
 \* the pilot leaves the task manager; nothing is said to the tasks bound to it
 \* (remove_pilots neither cancels nor unbinds them), so C13 keeps applying
 RemovePilots(p) ==
-  /\ AllowRemove /\ p \notin removed /\ p \in added
+  /\ AllowRemove /\ p \notin removed /\ p \in added /\ unreg = {}
   /\ removed' = removed \cup {p}
   /\ UNCHANGED <<tstate, cbLog, bound, detail, pstate, pcbLog, dead,
                  iso, ownOK, keepOK, unkOK, pcomplete, race, adds, step>>
 
 \* add_pilots(G): every pilot of the list is watched from now on
 AddPilots(G) ==
-  /\ LateAdd /\ G # {} /\ G \cap added = {}
+  /\ LateAdd /\ G # {} /\ G \cap added = {} /\ unreg = {}
   /\ \A p \in G : ~IsFinal(NP, pstate[p]) /\ p \notin dead
   /\ added'   = added \cup G
   /\ watched' = watched \cup (IF DevAddLastWatched THEN {CHOOSE p \in G : TRUE} ELSE G)
@@ -201,7 +239,7 @@ AddPilots(G) ==
 (* ---- the pilot callback as a second writer of Task.state ---------------- *)
 \* the callback looks at the tasks: victims are those bound to p and not final
 DeathSelect(p) ==
-  /\ Race /\ DirectFinal /\ dying = None /\ p \notin dead
+  /\ Race /\ DirectFinal /\ dying = None /\ p \notin dead /\ unreg = {}
   /\ dying' = p
   /\ own'   = {t \in Tasks : Own(tstate, bound, t, p)}
   /\ todo'  = {t \in Tasks : Hit(DevPilotCbAll, DevPilotCbCanceled, tstate, bound, t, p)}
@@ -238,17 +276,42 @@ DeathEnd ==
 
 \* Task._update with a final state on a task that is final already
 DirectUpdate(t, s) ==
-  /\ Race /\ IsFinal(NT, tstate[t]) /\ IsFinal(NT, s) /\ s # tstate[t]
+  /\ Race /\ IsFinal(NT, tstate[t]) /\ IsFinal(NT, s) /\ s # tstate[t] /\ unreg = {}
   /\ tstate' = IF Overwrites(tstate[t], s) THEN [tstate EXCEPT ![t] = s] ELSE tstate
   /\ UNCHANGED <<cbLog, bound, detail, pstate, pcbLog, dead, removed,
                  iso, ownOK, keepOK, unkOK, pcomplete, race, adds, step>>
 
+(* ---- application calls, service info, submission ----------------------------- *)
+ApiCall(s) ==
+  /\ Api /\ nphase = "idle" /\ unreg = {}
+  /\ tables' = IF DevWaitExtendsFinal /\ ~IsFinal(NT, s) THEN tables \cup {s} ELSE tables
+  /\ UNCHANGED <<tstate, cbLog, bound, detail, pstate, pcbLog, dead, removed,
+                 iso, ownOK, keepOK, unkOK, pcomplete, race, adds,
+                 nphase, nb, plan, tonote, atOK, info, unreg>>
+
+SetInfo(t, k) ==
+  /\ Api /\ t \in Services /\ ~IsFinal(NT, tstate[t]) /\ nphase = "idle" /\ unreg = {}
+  /\ info' = [info EXCEPT ![t] = k]
+  /\ UNCHANGED <<tstate, cbLog, bound, detail, pstate, pcbLog, dead, removed,
+                 iso, ownOK, keepOK, unkOK, pcomplete, race, adds,
+                 nphase, nb, plan, tonote, atOK, tables, unreg>>
+
+\* the submission is over: whichever thread went first, a task whose pilot has
+\* ended by now is FAILED (the scan that came later found it)
+Register ==
+  /\ unreg # {}
+  /\ ownOK' = \A t \in unreg : bound[t] \in dead => tstate[t] = FailedS(NT)
+  /\ unreg' = {}
+  /\ UNCHANGED <<tstate, cbLog, bound, detail, pstate, pcbLog, dead, removed,
+                 iso, keepOK, unkOK, pcomplete, race, adds,
+                 nphase, nb, plan, tonote, atOK, tables, info>>
+
 (* ---- _update_tasks step by step -------------------------------------------- *)
 NBegin(b) ==
-  /\ Race /\ nphase = "idle"
+  /\ Race /\ nphase = "idle" /\ unreg = {}
   /\ nphase' = "apply" /\ nb' = b /\ plan' = <<>> /\ tonote' = <<>>
   /\ UNCHANGED <<tstate, cbLog, bound, detail, pstate, pcbLog, dead, removed,
-                 iso, ownOK, keepOK, unkOK, pcomplete, race, adds, atOK>>
+                 iso, ownOK, keepOK, unkOK, pcomplete, race, adds, atOK, tables, info, unreg>>
 
 \* next entry: what _task_state_progress makes of Task.state as it is now
 NSelect ==
@@ -258,7 +321,7 @@ NSelect ==
      plan' = IF ps = <<>> THEN <<>> ELSE <<e[1], ps>>
   /\ nb' = Tail(nb)
   /\ UNCHANGED <<tstate, cbLog, bound, detail, pstate, pcbLog, dead, removed,
-                 iso, ownOK, keepOK, unkOK, pcomplete, race, adds, nphase, tonote, atOK>>
+                 iso, ownOK, keepOK, unkOK, pcomplete, race, adds, nphase, tonote, atOK, tables, info, unreg>>
 
 \* Task._update for the next passed state: a no-op if the task is final by now
 NApply ==
@@ -270,13 +333,13 @@ NApply ==
      /\ tonote' = IF ok \/ DevAnnounceUnapplied THEN Append(tonote, <<u, Head(ss)>>) ELSE tonote
      /\ plan'   = IF Len(ss) = 1 THEN <<>> ELSE <<u, Tail(ss)>>
   /\ UNCHANGED <<cbLog, bound, detail, pstate, pcbLog, dead, removed,
-                 iso, ownOK, keepOK, unkOK, pcomplete, race, adds, nphase, nb, atOK>>
+                 iso, ownOK, keepOK, unkOK, pcomplete, race, adds, nphase, nb, atOK, tables, info, unreg>>
 
 NToFire ==
   /\ nphase = "apply" /\ plan = <<>> /\ nb = <<>>
   /\ nphase' = IF tonote = <<>> THEN "idle" ELSE "fire"
   /\ UNCHANGED <<tstate, cbLog, bound, detail, pstate, pcbLog, dead, removed,
-                 iso, ownOK, keepOK, unkOK, pcomplete, race, adds, nb, plan, tonote, atOK>>
+                 iso, ownOK, keepOK, unkOK, pcomplete, race, adds, nb, plan, tonote, atOK, tables, info, unreg>>
 
 \* one TASK_STATE callback: the application compares it with Task.state
 NFire ==
@@ -288,7 +351,7 @@ NFire ==
   /\ tonote' = Tail(tonote)
   /\ nphase' = IF Len(tonote) = 1 THEN "idle" ELSE "fire"
   /\ UNCHANGED <<tstate, bound, detail, pstate, pcbLog, dead, removed,
-                 iso, ownOK, keepOK, unkOK, pcomplete, race, adds, nb, plan>>
+                 iso, ownOK, keepOK, unkOK, pcomplete, race, adds, nb, plan, tables, info, unreg>>
 
 Next ==
   \/ \E b \in TBatches : Notify(b)
@@ -303,6 +366,9 @@ Next ==
   \/ \E t \in Tasks, s \in AllStates(NT) : DirectUpdate(t, s)
   \/ \E b \in TBatches : NBegin(b)
   \/ NSelect \/ NApply \/ NToFire \/ NFire
+  \/ \E s \in AllStates(NT) : ApiCall(s)
+  \/ \E t \in Tasks, k \in {"str", "dict"} : SetInfo(t, k)
+  \/ Register
 
 Spec == Init /\ [][Next]_vars
 
@@ -319,6 +385,8 @@ GapsFilled == \A t \in Tasks : /\ GapsFilledLog(NT, cbLog[t] \o Pending(t))
 \* what a callback announces is not contradicted by Task.state: the state is at
 \* least that far, and an announced final state is the task's state
 CbAgrees == atOK
+\* application calls leave the module level tables alone
+TablesUntouched == tables = {}
 BatchIsolation == iso
 FinalSticky == [][\A t \in Tasks : IsFinal(NT, tstate[t]) => tstate'[t] = tstate[t]]_vars
 
